@@ -503,6 +503,7 @@ package commonmark
 //@   ensures[len] len(result) >= len(dst)
 //@   ensures[prefix] forall k in [0, len(dst)): result[k] == old(dst[k])
 //@   ensures[escaped] Escaped(result, len(dst), len(result))
+//@   ensures[where] fresh(result) || (aliases(result, old(dst)) && cap(result) == cap(old(dst)))
 //@   loop 0: invariant[idx] 0 <= verbatimStart && verbatimStart <= i
 //@   loop 0: invariant[len] len(dst) >= len(old(dst))
 //@   loop 0: invariant[prefix] forall k in [0, len(old(dst))): dst[k] == old(dst[k])
